@@ -540,7 +540,8 @@ def run_world(rnd, n_cases, deep=False):
     -> dict(evaluations, cases, failures=[{what, case}], samples)"""
     import gens
     per = max(1, n_cases // 5)
-    cases = (gens.gen_pair(rnd, per) + gens.gen_dec(rnd, per) + gens.gen_table(rnd, max(1, per // 3))
+    shared = []     # the instances of one world share a small vocabulary: what one looks up, another has stored
+    cases = (gens.gen_pair(rnd, 2 * per, shared_pool=shared) + gens.gen_dec(rnd, per) + gens.gen_table(rnd, max(1, per // 3))
              + gens.gen_api(rnd, per) + gens.gen_prov(rnd, per))
     # G-target commands address a second table object on the implementation side: keep them, they are instances too
     iso, owner_iso = ["snapshot"], [None]
